@@ -103,4 +103,21 @@ CHECKS = {
              "thorough": {"checks": 5000, "shards": 4, "timeout": "60m"}},
         ],
     },
+    "C18": {
+        "level": "exploration",
+        "assumptions": EXPLORATION_ASSUMPTIONS + ["SSL configurations are checked for the dialled address only (on a dial that then fails); no TLS session is established",
+                                                  "between connect cycles the harness waits for the finished connection's goroutines to exit (their late Close is C07's subject)"],
+        "legs": [
+            {"test": "TestC18", "quick": {"checks": 500, "timeout": "15m"},
+             "thorough": {"checks": 5000, "shards": 4, "timeout": "60m"}},
+        ],
+    },
+    "C20": {
+        "level": "exploration",
+        "assumptions": EXPLORATION_ASSUMPTIONS + ["the logger is package-global, so the check owns its process; a password is admitted only if a password-less control run of the same scenario produces no record containing it"],
+        "legs": [
+            {"test": "TestC20", "quick": {"checks": 600, "timeout": "15m"},
+             "thorough": {"checks": 10000, "shards": 4, "timeout": "60m"}},
+        ],
+    },
 }
